@@ -5,15 +5,30 @@ package plot
 
 // ---------------------------------------------------------------------------------- C17
 
+// Representation invariant of the plot's time series (quantified over ALL timeSeries objects, marked by
+// the ghost flag ists): a series owns its go-tsz buffer (towner), and its len is the number of points
+// pushed into that buffer. Ownership makes distinct series have distinct buffers.
+//@ ghostfield ists bool
+//@ ghostfield towner int
+//@ spec func TSINV() bool = forall t *timeSeries :: ists(t) ==> t != nil && t.data != nil && t.len == pushed(t.data) && t.len >= 0 && towner(t.data) == ref(t)
+
 //@ func newTimeSeries
 //@   property C17
+//@   pragma closedheap yes
+//@   requires [series-invariant] TSINV()
+//@   at call New: ghost ists(&complit) = true ; ghost towner(result) = ref(&complit)
 //@   ensures [empty-series] result != nil && fresh(result) && result.attack == attack && result.label == label && result.len == 0 && result.prev == 0
 //@              && result.data != nil && fresh(result.data) && pushed(result.data) == 0
+//@   ensures [series-invariant] TSINV() && ists(result)
+//@   ensures [other-series-untouched] forall t *timeSeries :: t != result ==> ists(t) == old(ists(t))
 
 // timeSeries.add: a point is pushed exactly once, or rejected (time going backwards) leaving everything unchanged.
 //@ func (*timeSeries).add
 //@   property C17
+//@   pragma closedheap yes
 //@   requires [non-nil] ts != nil && ts.data != nil && errMonotonicTimestamp != nil
+//@   requires [series-invariant] TSINV() && ists(ts)
+//@   ensures [series-invariant] TSINV() && (forall t *timeSeries :: ists(t) == old(ists(t)))
 //@   assume   [fewer-than-2^62-points] ts.len < 4611686018427387904
 //@   modifies ts.prev, ts.len, *ts.data
 //@   ensures [rejected-leaves-series-unchanged] old(ts.prev) > t ==> result != nil && ts.prev == old(ts.prev) && ts.len == old(ts.len) && pushed(ts.data) == old(pushed(ts.data))
@@ -24,7 +39,11 @@ package plot
 // to their series in sequence order, each exactly once, at x = (timestamp - timestamp of seq 0) in ms.
 //@ func (*labeledSeries).add
 //@   property C17
+//@   pragma closedheap yes
 //@   returns (err)
+//@   requires [series-invariant] TSINV() && (forall l string :: has(ls.series, l) ==> ists(ls.series[l])) && (forall s int :: has(ls.buf, s) ==> ists(ls.buf[s].ts))
+//@   ensures [series-invariant] TSINV() && (forall l string :: has(ls.series, l) ==> ls.series[l] != nil && ists(ls.series[l])) && (forall s int :: has(ls.buf, s) ==> ists(ls.buf[s].ts))
+//@   ensures [no-series-unmarked] forall t *timeSeries :: old(ists(t)) ==> ists(t)
 //@   requires [non-nil] ls != nil && r != nil && ls.label != nil && ls.buf != nil && ls.series != nil && errMonotonicTimestamp != nil
 //@   requires [each-sequence-number-once] r.Seq >= ls.seq && !has(ls.buf, r.Seq)
 //@   requires [buffered-points-are-pending] forall s int :: has(ls.buf, s) ==> s > ls.seq && ls.buf[s].seq == s && ls.buf[s].ts != nil && ls.buf[s].ts.data != nil
@@ -47,6 +66,7 @@ package plot
 //@     invariant ls == old(ls) && ls.buf == old(ls.buf) && ls.buf != nil && ls.seq == old(ls.seq) + released && released >= 0 && r.Seq == old(ls.seq)
 //@     invariant forall s int :: has(ls.buf, s) == ((old(has(ls.buf, s)) || s == r.Seq) && !(old(ls.seq) <= s && s < ls.seq))
 //@     invariant forall s int :: has(ls.buf, s) ==> ls.buf[s].seq == s && ls.buf[s].ts != nil && ls.buf[s].ts.data != nil && ls.buf[s].t >= ls.began
+//@     invariant TSINV() && (forall l string :: has(ls.series, l) ==> ls.series[l] != nil && ists(ls.series[l])) && (forall s int :: has(ls.buf, s) ==> ists(ls.buf[s].ts)) && (forall t *timeSeries :: old(ists(t)) ==> ists(t))
 
 // dataPoints as a sort.Interface: Less compares the x column, Swap exchanges two rows.
 //@ func (dataPoints).Len
@@ -97,11 +117,12 @@ package plot
 //@ spec func tswf(s *timeSeries) bool = s.data != nil && s.len == pushed(s.data) && s.len >= 0
 //@ func (*Plot).data
 //@   property C17
+//@   pragma closedheap yes
 //@   pragma floats real
 //@   pragma frame off
 //@   returns (data, labels, err)
 //@   requires [plot-well-formed] p != nil && (forall a string :: has(p.series, a) ==> p.series[a] != nil)
-//@   requires [series-well-formed] forall a, l string :: has(p.series, a) && has(p.series[a].series, l) && p.series[a].series[l] != nil ==> tswf(p.series[a].series[l])
+//@   requires [series-invariant] TSINV() && (forall a, l string :: has(p.series, a) && has(p.series[a].series, l) && p.series[a].series[l] != nil ==> ists(p.series[a].series[l]))
 //@   pragma fits count += s.len
 //@   ghost rows int = 0
 //@   before call Slice: assert [comparator-precondition-holds-for-all-in-range-indices] forall k int :: 0 <= k && k < len(series) ==> series[k] != nil
@@ -136,8 +157,11 @@ package plot
 //@ func (*Plot).Add
 //@   property C17
 //@   pragma obligations contract
+//@   pragma closedheap yes
 //@   returns (err)
 //@   requires [non-nil] p != nil && r != nil
+//@   requires [series-invariant] TSINV()
+//@   ensures [series-invariant] TSINV() && (forall l string :: has(p.series[r.Attack].series, l) ==> p.series[r.Attack].series[l] != nil && ists(p.series[r.Attack].series[l])) && (forall t *timeSeries :: old(ists(t)) ==> ists(t))
 //@   modifies p.series[*], p.series[r.Attack].buf[*], p.series[r.Attack].series[*], any(plot.labeledSeries), any(plot.timeSeries), any(tsz.Series)
 //@   ensures [dispatched-by-attack-name] has(p.series, r.Attack) && p.series[r.Attack] != nil
 //@   ensures [other-attacks-keep-their-series] forall a string :: a != r.Attack ==> has(p.series, a) == old(has(p.series, a)) && p.series[a] == old(p.series[a])
